@@ -247,6 +247,10 @@ class DocGen:
         if refs and r.random() < self.p.p_dynamic:
             name, t = r.choice(refs)
             calibrated = r.random() < 0.5
+            if t.enc.default_cal == ir.Poly(((0.5, 1),)):
+                # fractional derived value, whole length: the slope is an even multiple of the unit
+                slope = 2 * unit_bits * r.choice([1, 1, 2])
+                return ir.DynLen(name, True, slope, r.choice([None, unit_bits * min_units, unit_bits * max(1, min_units)]) if min_units == 0 else unit_bits * min_units)
             if t.enc.default_cal is not None and not integral_poly(t.enc.default_cal):
                 calibrated = False   # a non-integral calibrated length is meaningless
             form = r.randrange(5)
@@ -316,6 +320,10 @@ class DocGen:
             e = ir.IntEnc(w, "unsigned", False)
             if k == "integer" and r.random() < 0.25:
                 e = ir.IntEnc(w, "unsigned", False, self.poly(integral=True), ())
+            elif k == "integer" and r.random() < 0.4:
+                # "half" calibrator (a count of bytes calibrated to 16-bit words, ...): derived values x.5 that a length
+                # reference's slope makes whole again
+                e = ir.IntEnc(w, "unsigned", False, ir.Poly(((0.5, 1),)), ())
             if k == "enumerated":
                 return ir.PType(tname, k, e, unit, tuple((v, f"S{v}_{pname}") for v in range(1 << w) if r.random() < 0.85 or v == 0))
             return ir.PType(tname, k, e, unit)
